@@ -314,7 +314,7 @@ def run_asgi(prefix, kind, n_items, raise_at, gate_sends, slow_close, with_disco
                     if raise_at == i:
                         raise Boom(i)
                     obs["yielded"].append(i)
-                    yield (({} if i == empty_at else {"data": str(i)}) if kind == "sse" else b"%d;" % i)
+                    yield (({} if i == empty_at else {"data": str(i)}) if kind == "sse" else (b"" if i == empty_at else b"%d;" % i))
                 await env.gate("pend")
                 if raise_at == n_items:
                     raise Boom("end")
@@ -345,7 +345,7 @@ def run_asgi(prefix, kind, n_items, raise_at, gate_sends, slow_close, with_disco
                     if raise_at == i:
                         raise Boom(i)
                     obs["yielded"].append(i)
-                    return (({} if i == empty_at else {"data": str(i)}) if kind == "sse" else b"%d;" % i)
+                    return (({} if i == empty_at else {"data": str(i)}) if kind == "sse" else (b"" if i == empty_at else b"%d;" % i))
                 await env.gate("pend")
                 if raise_at == n_items:
                     raise Boom("end")
@@ -504,8 +504,11 @@ def judge_asgi(o, kind, n_items, raise_at, with_disconnect, slow_close, empty_at
             data.append(int(mm.group(1)) if mm else (empty_at if b == b"\n" and empty_at is not None else b))
         else:
             data.extend(int(x) for x in b.split(b";") if x)
-    if data != o["yielded"][:len(data)]:
-        p.append(f"delivered {data} is not a prefix of yielded {o['yielded']}")
+    yielded = [y for y in o["yielded"] if not (kind == "stream" and y == empty_at)]  # an empty byte string carries no data
+    if data != yielded[:len(data)]:
+        p.append(f"delivered {data} is not a prefix of yielded {yielded}")
+    if kind == "stream" and len(o["post_disc_items"]) > 1:
+        p.append(f"the producer was stepped {len(o['post_disc_items'])} times (items {o['post_disc_items']}) after the client had disconnected: the call must end by the producer's next step")
     disc = o["disc_processed_at"]
     ev = o["disc_event_at"]
     if ev is not None:
@@ -519,7 +522,7 @@ def judge_asgi(o, kind, n_items, raise_at, with_disconnect, slow_close, empty_at
             p.append(f"{len(late_pings)} pings sent after the client had disconnected")
     if ev is None:
         if raise_at is None:
-            if data != list(range(n_items)):
+            if data != [i for i in range(n_items) if not (kind == "stream" and i == empty_at)]:
                 p.append(f"no disconnect, producer finished, but delivered {data}")
             if o["exc"] is not None:
                 p.append(f"call raised {o['exc']}")
@@ -588,6 +591,9 @@ def asgi_configs(tier):
     for kind in ("stream", "sse"):
         out.append((kind, 3, None, False, False, True, 1, None))   # a producer longer than what may legally follow a disconnect
         out.append((kind, 3, None, False, False, False, 1, None))
+    for e in (0, 1, 2):
+        for disc in (False, True):
+            out.append(("stream", 3, None, False, False, disc, 1, e))   # an empty byte string among the chunks
     for e in (0, 1):
         for disc in (False, True):
             out.append(("sse", 2, None, False, False, disc, 1, e))   # an empty (falsy) event dictionary
